@@ -197,6 +197,35 @@ func codePoints(t *testing.T, plan harness.Plan) {
 	}
 }
 
+// manyRuns: paragraphs with hundreds to thousands of delimiter runs (the
+// delimiter stack is only emptied at the end of the block), so that anything
+// bounded by the number of runs, not by their length, is crossed.
+func manyRuns(t *testing.T, plan harness.Plan) {
+	const name = "many_runs"
+	if harness.Cfg().Shard != 0 {
+		return
+	}
+	counts := []int{100, 520, 1030, 2100}
+	if harness.Cfg().Tier == "thorough" {
+		counts = []int{100, 255, 256, 257, 511, 512, 513, 1023, 1024, 1025, 2047, 2048, 2049, 4100}
+	}
+	for _, n := range counts {
+		for ti, s := range []string{
+			strings.TrimSpace(strings.Repeat("*a* _b_ **c** ", n/3)),
+			"*x " + strings.Repeat("_y ", n) + "z*",
+			strings.Repeat("*a ", n) + "b" + strings.Repeat(" c*", n/2),
+			strings.Repeat("a* ", n) + "*b*",
+		} {
+			err := check(s)
+			harness.CountRaw(name, uint64(n)<<3|uint64(ti), true, func() string { return fmt.Sprintf("template %d with %d runs", ti, n) })
+			if err != nil && harness.Fail(t, plan, name, harness.Case{In: []byte(s)}, err) {
+				return
+			}
+		}
+	}
+	harness.SetExhaustive(name, fmt.Sprintf("four templates x %v delimiter runs in one paragraph", counts))
+}
+
 // longRuns: one run of every length up to 700 in a few templates.
 func longRuns(t *testing.T, plan harness.Plan) {
 	if harness.Cfg().Shard != 0 {
@@ -332,6 +361,8 @@ func TestProperty(t *testing.T) {
 	}}
 	plan.Checks = append(plan.Checks, harness.Check{Name: "long_runs", Prop: propOne,
 		Rule: "templates with one delimiter run of every length 1..700 (a{N}b**, **a{N}b, {N}a{M} ...) for both delimiters: run lengths far beyond what enumeration reaches, around 255/256 and 65535-style boundaries of narrow counters; " + ruleNT})
+	plan.Checks = append(plan.Checks, harness.Check{Name: "many_runs", Prop: propOne,
+		Rule: "paragraphs with 100 to 2100 delimiter runs (thorough: fourteen counts up to 4100, around 256, 512, 1024, 2048) in four templates (matched pairs, an outer pair around many unmatched runs, many openers with half as many closers, many closers then a pair); " + ruleNT})
 	plan.Checks = append(plan.Checks, harness.Check{Name: "code_points", Prop: propOne,
 		Rule: "every non-ASCII code point (quick: the whole BMP and every 17th code point above; thorough: all) directly before and after delimiter runs in six templates that tell Unicode white space, Unicode punctuation and other characters apart; " + ruleNT})
 	plan.After = func(t *testing.T) {
@@ -340,6 +371,10 @@ func TestProperty(t *testing.T) {
 			return
 		}
 		codePoints(t, plan)
+		if t.Failed() {
+			return
+		}
+		manyRuns(t, plan)
 		if t.Failed() {
 			return
 		}
